@@ -12,6 +12,8 @@ PERIODS = [("nano", 1, 10 ** 9), ("micro", 1, 10 ** 6), ("milli", 1, 1000), ("on
 NAMED = ["std::chrono::nanoseconds", "std::chrono::microseconds", "std::chrono::milliseconds", "std::chrono::seconds", "std::chrono::minutes", "std::chrono::hours"]
 NAMED_PERIOD = {"std::chrono::nanoseconds": (1, 10 ** 9), "std::chrono::microseconds": (1, 10 ** 6), "std::chrono::milliseconds": (1, 1000), "std::chrono::seconds": (1, 1),
                 "std::chrono::minutes": (60, 1), "std::chrono::hours": (3600, 1)}
+# C++20 calendar typedefs (their own names could be given a specialised mapping, like the six above)
+NAMED20 = {"std::chrono::days": (86400, 1), "std::chrono::weeks": (604800, 1), "std::chrono::months": (2629746, 1), "std::chrono::years": (31556952, 1)}
 TARGETS = [("QuantityD<Seconds>", "au::QuantityD<au::Seconds>"), ("QuantityI<Milli<Seconds>>", "au::Quantity<au::Milli<au::Seconds>, int>"), ("Quantity<Hours,int>", "au::Quantity<au::Hours, int>"),
            ("QuantityI64<Nano<Seconds>>", "au::Quantity<au::Nano<au::Seconds>, int64_t>"), ("QuantityF<Minutes>", "au::Quantity<au::Minutes, float>"), ("QuantityD<Meters>", "au::QuantityD<au::Meters>"),
            ("Quantity<Seconds,int8_t>", "au::Quantity<au::Seconds, int8_t>")]
@@ -30,11 +32,20 @@ def plan(tier):
     for t in NAMED:
         n, d = NAMED_PERIOD[t]
         durs.append({"desc": t.split("::")[-1], "type": t, "rep": "int64_t", "num": n, "den": d})
+    for t, (n, d) in NAMED20.items():
+        durs.append({"desc": t.split("::")[-1], "type": t, "rep": "int64_t", "num": n, "den": d, "cpp20": True})
     for i, d in enumerate(durs):
         d["id"] = i + 1
     pairs = []
-    allp = [(a, b) for a in durs for b in durs]
+    allp = [(a, b) for a in durs for b in durs if not a.get("cpp20") and not b.get("cpp20")]
     rnd.shuffle(allp)
+    # the C++20 typedefs against a few ordinary durations, both ways round (run in the C++20 configurations only)
+    c20 = [d for d in durs if d.get("cpp20")]
+    others = [d for d in durs if not d.get("cpp20") and d["den"] in (1, 1000) and d["num"] in (1, 60, 3600, 86400, 604800)]
+    extra20 = []
+    for a in c20:
+        for b in rnd.sample(others, 3 if tier == "quick" else 8) + [rnd.choice(c20)]:
+            extra20.append((a, b) if rnd.random() < 0.5 else (b, a))
     npairs = 110 if tier == "quick" else 1000
     pid = 1000
     for a, b in allp:
@@ -42,6 +53,9 @@ def plan(tier):
             break
         # integral mixes need the policy to admit both conversions to the common unit: keep factors modest, let the compiler have the last word
         pairs.append({"id": pid, "a": a, "b": b, "desc": f'{a["desc"]} vs {b["desc"]}'})
+        pid += 1
+    for a, b in extra20:
+        pairs.append({"id": pid, "a": a, "b": b, "desc": f'{a["desc"]} vs {b["desc"]}', "cpp20": True})
         pid += 1
     return durs, pairs
 
@@ -65,6 +79,8 @@ def build_and_run(si, durs, pairs, flavour, std, nrandom, dropped):
     d = core.subdir(f"c17_{flavour}_{std.replace('+', 'p')}")
     src = os.path.join(d, f"s{si}.cc")
     exe = os.path.join(d, f"s{si}.exe")
+    if std != "c++20":
+        durs, pairs = [x for x in durs if not x.get("cpp20")], [x for x in pairs if not x.get("cpp20")]
     durs, pairs = list(durs), list(pairs)
     for attempt in range(12):
         core.write(src, emit_tu(durs, pairs))
@@ -99,9 +115,11 @@ def run(chk, which="C17"):
     nrandom = 120 if tier == "quick" else 2000
     dropped = []
     jobs = [(si, a, b, fl, std) for fl, std in cfgs for si, (a, b) in enumerate(shards)]
+    if tier == "quick":  # the C++20-only duration types get one small C++20 build of their own
+        jobs.append((nsh, [x for x in durs if x.get("cpp20")], [x for x in pairs if x.get("cpp20")], "G_trap", "c++20"))
     results = core.pmap(lambda j: (j[3], j[4], build_and_run(j[0], j[1], j[2], j[3], j[4], nrandom, dropped)), jobs)
     bad_ids = {d["id"] for d in dropped}
-    core.reach(chk, emit_tu(durs[::4], [x for x in pairs if x["id"] not in bad_ids][::6][:16]), [[30, 1]])
+    core.reach(chk, emit_tu([x for x in durs if not x.get("cpp20")][::4], [x for x in pairs if x["id"] not in bad_ids and not x.get("cpp20")][::6][:16]), [[30, 1]])
     evals = 0
     distinct = set()
     secs = None
@@ -152,7 +170,7 @@ def run(chk, which="C17"):
                     elif r["phase"] != "OPERATION":
                         chk.fail_inconclusive(f"trap in harness phase {r['phase']} ({fl})")
     chk.add_evals(evals, len(distinct))
-    chk.cov["rule"] = ("duration types: Rep in {int32,int64,float,double} x 14 periods (nano..week, 1/60, 1001/30000, 1/1000000007, non-reduced 2/4, 10^18) + the six named chrono typedefs (specialised mapping); "
+    chk.cov["rule"] = ("duration types: Rep in {int32,int64,float,double} x 14 periods (nano..week, 1/60, 1001/30000, 1/1000000007, non-reduced 2/4, 10^18) + the six named chrono typedefs (specialised mapping) + under C++20 days/weeks/months/years; "
                        "per type: static facts (rep, unit = seconds x Period via the reifier, reduced period of as_chrono_duration) and count-preserving round trips on boundary/random counts; "
                        "sampled ordered pairs: the six comparisons both ways, +, - against chrono's own result on operand pairs where chrono's computation cannot overflow (128-bit oracle); "
                        "implicit acceptance compared with the corresponding quantity for 7 target quantity types; distinct_nontrivial = distinct (kind, instance)")
